@@ -38,7 +38,7 @@ NullBase(of) == CASE of = "int" -> [k |-> "int", w |-> 64, flat |-> FALSE]
                   [] of = "string" -> [k |-> "string"]
                   [] of = "time" -> [k |-> "time"]
 
-Cfg0 == [protoTime |-> FALSE, protoArrays |-> FALSE, nullProto |-> FALSE]
+Cfg0 == [protoTime |-> FALSE, protoArrays |-> FALSE, nullProto |-> FALSE, flatUnsigned |-> FALSE, timeAsZigZag |-> FALSE]
 
 \* wire type of a baked type
 RECURSIVE WT(_, _)
